@@ -7,6 +7,7 @@ import (
 	"fmt"
 	"math"
 	"math/rand/v2"
+	"slices"
 	"sort"
 
 	"github.com/fluhus/biostuff/mash"
@@ -136,8 +137,11 @@ func init() {
 			{Name: "sketches", QShards: 2, TShards: 8, Run: c17Sketches},
 			{Name: "distance", TShards: 4, Run: c17Distance},
 			{Name: "long", QShards: 4, TShards: 12, Run: c17Long},
+			{Name: "huge", QShards: 2, TShards: 4, Run: c17Huge},
 			{Name: "parallel", Race: true, Run: mashParallel},
 			firstCallUnit(firstMash),
+			firstParallelUnit(parMash),
+			reuseUnit(reuseMash),
 			{Name: "motifs", TShards: 4, Run: c17Motifs},
 			{Name: "fromjaccard", Run: c17FromJaccard},
 		},
@@ -577,6 +581,75 @@ func c17Motifs(c *Ctx) {
 			k.Count("motif_cases", 1)
 			k.Evals(2)
 			k.Nontrivial(seq, []byte{byte(kk), byte(size)})
+		})
+	}
+}
+
+// c17Huge: calls whose sequences hold 2^20 bases and more IN ALL (one long
+// sequence, a few long ones, thousands of short ones), in mixed case with Ns —
+// the sizes at which a sketching routine would split the work. Too large for
+// the brute-force reference; compared metamorphically: upper-cased input,
+// reverse-complemented input, the sequences one Add at a time, in another
+// order, and a smaller sketch as the tail of the larger one.
+func c17Huge(c *Ctx) {
+	layouts := [][]int{{1<<20 + 7}, {1 << 19, 1 << 19, 40}, {700000, 300, 400000}}
+	if c.Thorough {
+		layouts = append(layouts, []int{1 << 21, 1 << 21}, []int{3 << 20})
+	}
+	many := make([]int, 3000)
+	for i := range many {
+		many[i] = 300 + i%100
+	}
+	layouts = append(layouts, many)
+	for i, lay := range layouts {
+		c.Case(int64(i), func(k *K) {
+			r := k.Rand()
+			kk := pick(r, []int{15, 21, 31, 32, 33})
+			var seqs, upper, rcs [][]byte
+			total := 0
+			for _, l := range lay {
+				s := randSeq(r, []byte("ACGTacgtACGTacgtNn"), l)
+				seqs, upper, rcs = append(seqs, s), append(upper, bytes.ToUpper(s)), append(rcs, refRevComp(s))
+				total += l
+			}
+			k.Input("k", kk)
+			k.Input("sequences", len(seqs))
+			k.Input("bases_in_all", total)
+			want := append([]uint64{}, mash.Sequences(1000, kk, upper...).View()...)
+			variants := map[string]func() []uint64{
+				"the mixed-case form of the sequences":     func() []uint64 { return mash.Sequences(1000, kk, seqs...).View() },
+				"the reverse complements of the sequences": func() []uint64 { return mash.Sequences(1000, kk, rcs...).View() },
+				"the sequences added one Add call at a time": func() []uint64 {
+					mh := mash.Sequences(1000, kk)
+					for _, s := range seqs {
+						mash.Add(mh, kk, s)
+					}
+					return mh.View()
+				},
+				"the sequences in reverse order": func() []uint64 {
+					rev := append([][]byte{}, seqs...)
+					slices.Reverse(rev)
+					return mash.Sequences(1000, kk, rev...).View()
+				},
+				"the first sequence in one call, the others in a second Add": func() []uint64 {
+					mh := mash.Sequences(1000, kk, seqs[0])
+					mash.Add(mh, kk, seqs[1:]...)
+					return mh.View()
+				},
+			}
+			for what, f := range variants {
+				if got := f(); !sameU64(got, want) {
+					k.Failf("sketch-variant", "%d sequences with %d bases in all (k=%d): the sketch of %s differs from the sketch of their upper-case form", len(seqs), total, kk, what)
+					return
+				}
+				k.Count("variants_checked", 1)
+			}
+			if small := mash.Sequences(100, kk, seqs...).View(); !sameU64(small, want[len(want)-100:]) {
+				k.Failf("sketch-variant", "a sketch of 100 values is not the tail of the sketch of 1000 values (%d bases in all)", total)
+				return
+			}
+			k.Count("huge_calls_checked", 1)
+			k.Nontrivial([]byte(fmt.Sprint("huge", lay[0], len(lay), kk)))
 		})
 	}
 }
